@@ -368,6 +368,15 @@ var handOrderItems = [][]SDLItem{
 }
 
 var handSchemas = []string{
+	// violations carried by types that exist only through extensions (the error is reported at the type itself)
+	"extend type Ghost implements Missing { a: Int } type Query { g: Ghost }",
+	"extend union U = Missing type Query { u: U }",
+	"extend type __Ghost { a: Int } type Query { a: Int }",
+	"extend interface Spook implements Missing { a: Int } type Query { a: Int }",
+	"extend type Ghost { a: Missing } type Query { g: Ghost }",
+	"extend input In { a: Query } type Query { f(i: In): Int }",
+	"extend enum E @nodirective { A } type Query { e: E }",
+	"extend type Ghost implements Query { a: Int } type Query { a: Int }",
 	"type Query { a: Int }",
 	"type Query { a: Int } type Query { b: Int }",
 	"extend type Query { a: Int }",
